@@ -130,11 +130,19 @@ def toSpec : Arith.Req → BoolDec.Req
   | .bool p => .bool p | .flag => .flag | .literal n => .literal n | .signed n => .signed n
   | .tree t ps => .tree t ps
 
+/-- the five tree shapes of the decoder: key-frame luma modes, chroma modes, segment ids, sub-block
+    modes and DCT tokens -/
+def crateTrees : List (List Int) :=
+  [Gen.Tables.KEYFRAME_YMODE_TREE, Gen.Tables.KEYFRAME_UV_MODE_TREE, Gen.Tables.SEGMENT_ID_TREE,
+   Gen.Tables.KEYFRAME_BPRED_MODE_TREE, Gen.Tables.DCT_TOKEN_TREE]
+
+/-- the requests the theorem quantifies over: any probability for single bits, literals and
+    signed values of up to 8 bits, and each of the decoder's five tree shapes with ANY node
+    probabilities (the fixed tables of the mode trees and every value the per-frame probability
+    updates of the token tree can produce) -/
 def ReqOk : Arith.Req → Prop
   | .bool p => p < 256 | .flag => True | .literal n => n ≤ 8 | .signed n => n ≤ 8
-  | .tree t ps => (t, ps) ∈ [(Gen.Tables.KEYFRAME_YMODE_TREE, Gen.Tables.KEYFRAME_YMODE_PROBS),
-      (Gen.Tables.KEYFRAME_UV_MODE_TREE, Gen.Tables.KEYFRAME_UV_MODE_PROBS), (Gen.Tables.SEGMENT_ID_TREE, [255, 255, 255])]
-      ∨ (t = Gen.Tables.KEYFRAME_BPRED_MODE_TREE ∧ ∃ ps' ∈ Gen.Tables.KEYFRAME_BPRED_MODE_PROBS, ps ∈ ps')
+  | .tree t ps => t ∈ crateTrees ∧ ps.length = t.length / 2 ∧ ∀ p ∈ ps, p < 256
 
 def refines_rfc_full : Prop :=
   ∀ (data : List Nat) (reqs : List Arith.Req),
@@ -142,24 +150,23 @@ def refines_rfc_full : Prop :=
     BoolDec.agreeUntilExhausted (Arith.run (Arith.init data) reqs)
       (BoolDec.run (BoolDec.init data) (reqs.map toSpec)) = true
 
-/-- the decoder's four trees (all 100 probability vectors of the sub-block mode tree) have the
-    RFC shape the walk lemmas need -/
-theorem crate_trees_good :
-    ArithRfc.treeGood Gen.Tables.KEYFRAME_YMODE_TREE Gen.Tables.KEYFRAME_YMODE_PROBS = true ∧
-    ArithRfc.treeGood Gen.Tables.KEYFRAME_UV_MODE_TREE Gen.Tables.KEYFRAME_UV_MODE_PROBS = true ∧
-    ArithRfc.treeGood Gen.Tables.SEGMENT_ID_TREE [255, 255, 255] = true ∧
-    (∀ ps' ∈ Gen.Tables.KEYFRAME_BPRED_MODE_PROBS, ∀ ps ∈ ps', ArithRfc.treeGood Gen.Tables.KEYFRAME_BPRED_MODE_TREE ps = true) := by
-  decide +kernel
+/-- the structural part of `treeGood` (everything but the probabilities) -/
+def shapeGood (t : List Int) : Bool :=
+  t.length % 2 == 0 && decide (t.length / 2 ≤ 128) && decide (0 < t.length) &&
+  (List.range t.length).all (fun i => ArithRfc.entryGood t.length i (t.getD i 0))
 
+theorem crate_shapes_good : ∀ t ∈ crateTrees, shapeGood t = true := by decide +kernel
+
+/-- the decoder's five tree shapes have, with any node probabilities, the RFC shape the walk
+    lemmas need -/
 theorem reqok_tree_good (t : List Int) (ps : List Nat) (h : ReqOk (.tree t ps)) : ArithRfc.treeGood t ps = true := by
-  obtain ⟨g1, g2, g3, g4⟩ := crate_trees_good
-  rcases h with h | ⟨h1, ps', h2, h3⟩
-  · simp only [List.mem_cons, Prod.mk.injEq, List.not_mem_nil, or_false] at h
-    rcases h with ⟨rfl, rfl⟩ | ⟨rfl, rfl⟩ | ⟨rfl, rfl⟩
-    · exact g1
-    · exact g2
-    · exact g3
-  · subst h1; exact g4 ps' h2 ps h3
+  obtain ⟨ht, hl, hp⟩ := h
+  have hs := crate_shapes_good t ht
+  unfold shapeGood at hs
+  unfold ArithRfc.treeGood
+  simp only [Bool.and_eq_true, beq_iff_eq, decide_eq_true_eq, List.all_eq_true] at hs ⊢
+  obtain ⟨⟨⟨h1, h2⟩, h3⟩, h4⟩ := hs
+  exact ⟨⟨⟨⟨⟨h1, by omega⟩, h2⟩, h3⟩, h4⟩, fun p hpp => by simpa using hp p hpp⟩
 
 open ArithRfc in
 theorem step_sim (data : List Nat) (hb : ∀ b ∈ data, b < 256) (r : Arith.Req) (hok : ReqOk r)
